@@ -28,7 +28,7 @@ class Unsupported(Exception):
 # kinds: 'int' 'bool' 'str' 'list' 'dict' 'mv' 'coef' 'fun' 'alg' 'tuple' 'opt:<kind>' 'signs' None(unknown)
 class T:
     """a translation target"""
-    def __init__(self, file, qual, lean, params, ret, locals=None, tparams='', uses_alg=False, coef=False, self_name=None, uses_ops=False, uses_mops=False, consts=None, state=None, externals=None, drop_assign=(), env=None, state_type=None, region=None, self_locals=(), strkey=(), extra_params=(), skip_if=()):
+    def __init__(self, file, qual, lean, params, ret, locals=None, tparams='', uses_alg=False, coef=False, self_name=None, uses_ops=False, uses_mops=False, consts=None, state=None, externals=None, drop_assign=(), env=None, state_type=None, region=None, self_locals=(), strkey=(), extra_params=(), skip_if=(), prelude_lets=()):
         self.file, self.qual, self.lean = file, qual, lean
         self.params = params          # list of (pyname, leantype, kind)
         self.ret = ret
@@ -42,6 +42,7 @@ class T:
         self.elem_kind = {}
         self.extra_params = list(extra_params)   # what `self` carries besides the algebra (e.g. the keys of a multivector)
         self.skip_if = set(skip_if)   # `if <text>:` statements that only normalise the calling convention (e.g. grade((1, 2)) vs grade(1, 2)): dropped
+        self.prelude_lets = list(prelude_lets)   # bindings of cached properties of `self` that the body reads
         self.is_property = False      # a cached_property: read as an attribute
         self.items_kinds = {}         # dict variable -> 'keykind,valuekind' of its items
         self.region = region          # translate only the `if <region>:` statement of the function, as a function of its own
@@ -109,6 +110,16 @@ TARGETS = [
       locals={'num': (MV, 'mv')}, tparams=COEF, uses_alg=True, uses_ops=True, consts={'symbolic': True}, self_name='alg'),
     T('kingdon/algebra.py', 'Algebra._blade2canon', 'blade2canon', [('basis_blade', 'List Char', 'str')], 'List Char × Int',
       uses_alg=True, self_name='self', locals={'bin': ('Int', 'int')}),
+    # ---- the Cayley table (algebra.py) ----
+    T('kingdon/algebra.py', 'Algebra.cayley', 'cayley', [], 'Py.Dict (List Char × List Char) (List Char)', uses_alg=True, self_name='self',
+      locals={'cayley': ('Py.Dict (List Char × List Char) (List Char)', 'dict')}),
+    # ---- indices per grade (algebra.py) ----
+    T('kingdon/algebra.py', 'Algebra.indices_for_grade', 'indices_for_grade', [], 'Py.Dict Int (List Int)', uses_alg=True, self_name='self'),
+    T('kingdon/algebra.py', 'Algebra.indices_for_grades', 'indices_for_grades_table', [], 'Py.Dict (List Int) (List Int)', uses_alg=True, self_name='self',
+      externals={'len(self)': ('alg.len', 'int'), 'self.indices_for_grade': ('ifg__', 'dict:list:int')}, prelude_lets=['let ifg__ ← indices_for_grade alg']),
+    # ---- the sign table (algebra.py): the eager branch (d <= 6); for d > 6 `DefaultKeyDict(_compute_sign)` calls _compute_sign(key) on demand ----
+    T('kingdon/algebra.py', 'Algebra._prepare_signs', 'prepare_signs', [], 'Py.Dict (Int × Int) Int', uses_alg=True, self_name='self',
+      locals={'signs': ('Py.Dict (Int × Int) Int', 'dict')}, skip_if=['self.d > 6']),
     # ---- the zero filter of symbolic results (operator_dict.py) ----
     T('kingdon/operator_dict.py', 'OperatorDict.filter', 'od_filter', [('keys_out', 'List Int', 'list:int'), ('values_out', 'List α', 'list:coef')],
       'List Int × List α', tparams='{α : Type} [Py.Truthy α]', self_name='self', extra_params=[('simp_func', 'α → α')],
@@ -302,6 +313,7 @@ class Tr:
             self.types[n] = ty
         self.declared = set(p for p, _, _ in tgt.params)
         self.tmp = 0
+        self.rename = {}
         self.pre = []               # hoisted statements for the statement being translated
         # names assigned more than once / mutated
         self.mutable = self._mutables(fn)
@@ -401,7 +413,7 @@ class Tr:
             raise Unsupported(f'constant {v!r}')
         if isinstance(node, ast.Name):
             if node.id in self.kinds or node.id in self.declared:
-                return node.id, self.kinds.get(node.id)
+                return self.rename.get(node.id, node.id), self.kinds.get(node.id)
             if node.id == 'abs':
                 return 'Py.abs', 'fun'
             raise Unsupported(f'free name {node.id}')
@@ -688,6 +700,8 @@ class Tr:
                 ks = ['int', 'str' if inner == 'list:str' else None]
             elif (kit or '').startswith('items:'):
                 ks = kit[6:].split(',')
+            elif (kit or '').startswith('list:tuple:'):
+                ks = kit[11:].split(',')
             for t, k in zip(target.elts, ks or [None] * len(target.elts)):
                 setk(t, k if k != '' else None)
 
@@ -808,6 +822,9 @@ class Tr:
                 return self.E(args[0])
             if n == 'int' and len(args) == 1 and isinstance(kw.get('base'), ast.Constant) and kw['base'].value == 16:
                 return f'(← Py.hexDigit {self.E(args[0])[0]})', 'int'
+            if n == 'product' and len(args) == 1 and set(kw) == {'repeat'} and isinstance(kw['repeat'], ast.Constant) and kw['repeat'].value == 2:
+                c0 = self.E(args[0])[0]
+                return f'(Py.product {c0} {c0})', 'list'
             if n == 'product' and len(args) == 2 and not kw:
                 return f'(Py.product {self.E(args[0])[0]} {self.E(args[1])[0]})', 'list'
             if n == 'zip' and len(args) == 2:
@@ -821,6 +838,15 @@ class Tr:
                 return f'({self.E(args[0])[0]}, {self.E(args[1])[0]})', 'tuple'
             if n == 'getattr' and len(args) == 2 and isinstance(args[0], ast.Name) and args[0].id == 'self' and '__getattr__' in BY_PY:
                 return self.call_target(BY_PY['__getattr__'], [args[1]], {})
+            if n == 'groupby' and len(args) == 1 and set(kw) == {'key'} and ast.unparse(kw['key']) == 'len':
+                c0, k0 = self.E(args[0])
+                if (k0 or '').startswith('dict'):
+                    c0 = f'(Py.dictKeys {c0})'              # iterating a dict yields its keys
+                return f'(Py.groupbyLen {c0})', 'list:tuple:int,list:str'
+            if n == 'sum' and len(args) == 2 and ast.unparse(args[1]) == '()':
+                return f'(List.flatten {self.E(args[0])[0]})', 'list:int'
+            if n == 'chain' and len(args) == 1 and isinstance(args[0], ast.Starred):
+                return f'(List.flatten {self.E(args[0].value)[0]})', 'list:list:int'
             if n == 'all' and len(args) == 1 and not kw:
                 return f'(({self.E(args[0])[0]}).all id)', 'bool'
             if n == 'min' and len(args) == 1 and not kw:
@@ -976,6 +1002,14 @@ class Tr:
     # ---------------------------------------------------------------- statements
     def bind(self, name, code, kind):
         """`name = code` as a do-statement"""
+        old_kind = self.kinds.get(name)
+        if name in self.declared and kind is not None and old_kind is not None and {kind, old_kind} == {'int', 'str'}:
+            # python re-binds the name to a value of another type: a fresh Lean name from here on
+            self.tmp += 1
+            new = f'{name}__{self.tmp}'
+            self.rename[name] = new
+            self.kinds[name] = kind
+            return f'let {new} := {code}'
         if kind is not None:
             self.kinds[name] = kind
         ty = f' : {self.types[name]}' if name in self.types else ''
@@ -1178,8 +1212,11 @@ class Tr:
             t = self.truth(st.test)
             out = self.flush(ind) + [f'{ind}if {t} then']
             dsaved = set(self.declared)
+            rsaved, ksaved = dict(self.rename), dict(self.kinds)
             out += self.block(st.body, ind + '  ')
             self.declared = dsaved | {n for n in self.declared if n in dsaved}
+            self.rename = dict(rsaved)
+            self.kinds = {**self.kinds, **{k: v for k, v in ksaved.items()}}
             if st.orelse:
                 out.append(f'{ind}else')
                 out += self.block(st.orelse, ind + '  ')
@@ -1211,6 +1248,8 @@ class Tr:
             if k is not None:
                 self.kinds[nm] = k
             return out
+        if isinstance(st, ast.FunctionDef) and st.name in BY_PY:
+            return []                  # a nested function that is a translation target of its own
         if isinstance(st, ast.Pass):
             return [ind + 'pure ()']
         raise Unsupported(f'statement {type(st).__name__}')
@@ -1249,7 +1288,7 @@ class Tr:
         self.head = head
         if sig_changed:
             raise Unsupported(f'signature changed: {names}')
-        lines = [head]
+        lines = [head] + ['  ' + l for l in t.prelude_lets]
         for p, _, _ in t.params:
             if p in self.mutable and not (self.kinds.get(p) or '').startswith('opt:'):
                 lines.append(f'  let mut {p} := {p}')
